@@ -895,6 +895,10 @@ func ModifyRegister(register *object.Register, in ast.Node) (ast.Node, bool) {
 }
 
 func setupRegister(env *object.Environment, name string, value int64, body ast.Node) (object.Register, ast.Node, bool) {
+	if !env.HasRegisters() {
+		// All registers of this environment are in use: the caller falls back to a plain variable.
+		return object.Register{}, body, false
+	}
 	register := env.MakeRegister(name, value)
 	newBody, ok := ast.Modify(body, func(in ast.Node) (ast.Node, bool) {
 		return ModifyRegister(&register, in)
@@ -905,7 +909,11 @@ func setupRegister(env *object.Environment, name string, value int64, body ast.N
 		newBody.PrettyPrint(ps)
 		log.LogVf("replaced %d registers - ok = %t: %s", register.Count, ok, out.String())
 	}
-	if !ok || register.Count == 0 {
+	if !ok {
+		env.ReleaseRegister(register) // not usable for this body, give it back.
+		return register, body, false
+	}
+	if register.Count == 0 {
 		return register, body, ok // original body unchanged.
 	}
 	return register, newBody, ok
